@@ -10,6 +10,7 @@ import FaxVerif.Cpp.Json
 import FaxVerif.Cpp.Check
 import FaxVerif.Gen.Render
 import FaxVerif.C03.Spec
+import FaxVerif.C04.Shapes
 open Lean FaxVerif.Cpp FaxVerif.Linq FaxVerif.Gen
 
 def rowsJson (rows : List (List (Val Float))) : Json :=
@@ -44,7 +45,9 @@ def handleRun (j : Json) : Except String Json := do
       | .ok b => Json.bool b
       | .error e => Json.str e
     | .error _ => Json.null
+  let sh := FaxVerif.C04.countShapes P.body
   pure (Json.mkObj [("exec", Json.arr execs.toArray), ("denote", dens), ("job", job), ("schema_ok", schema),
+    ("shapes", Json.mkObj [("and", Json.num sh.ands), ("or", Json.num sh.ors), ("if", Json.num sh.ites)]),
     ("wf", Json.bool (WellFormed P)), ("eventlocal", Json.bool (EventLocal P)), ("unique", Json.bool (UniqueNames P))])
 
 /-- {"op":"compile","backend":b,"colls":[{"name","type","elem"}],"fq":FQ,"events":[..]}
